@@ -401,8 +401,8 @@ pub fn run(args: &Args) -> i32 {
     if let Some(p) = &args.replay { return replay(args, p, rep); }
     let budget = Budget::for_tier(args.tier, 150.0, 1200.0);
     let jobs = args.jobs.max(1);
-    let n_states = args.by_tier(2000u64, 30_000);
-    let n_ticks = args.by_tier(2000u64, 20_000);
+    let n_states = args.by_tier(2000u64, 120_000);
+    let n_ticks = args.by_tier(2000u64, 80_000);
     let b = budget.slice(0.6);
     run_shards(&mut rep, jobs, jobs, |shard, rep| {
         let mut case = shard as u64;
